@@ -358,6 +358,7 @@ public:
                                 );
                 }
 
+                this->_info._histogram.resize( this->_info._num_palette );
                 std::copy( histogram
                          , histogram + this->_info._num_palette
                          , &this->_info._histogram.front()
